@@ -256,7 +256,7 @@ impl Session {
         let res: String = match op.first().copied().unwrap_or("") {
             "i" => {
                 let (r, k, mux) = (n(1), n(2), op.get(3) == Some(&"1"));
-                if self.reqs.contains_key(&r) || k >= 100_000 { "N".into() } else {
+                if self.reqs.contains_key(&r) || k >= 100_000_000 { "N".into() } else {
                     // beyond the table: as many further origins as one likes (`http://n<k>.example`)
                     let uri = if k < KEYS.len() { let variants = KEYS[k]; format!("{}/r{}", variants[r % variants.len()], r) }
                               else { format!("{}://n{k}.example/r{r}", if r % 2 == 0 { "http" } else { "HTTP" }) };
@@ -410,7 +410,49 @@ pub fn run(toks: &[&str]) -> String {
 /// Feedback-driven generation: the schedule is produced while running the real pool, so that most
 /// operations are enabled (a pollable checkout, a pending dial, a busy connection, ...); about one
 /// op in twelve is drawn blindly to keep disabled ops in the mix. Only the op list is emitted.
-pub fn gen(r: &mut Rng, i: u64) -> String { if i % 1000 == 999 { gen_many_origins(r) } else if i % 40 == 39 { gen_shutdown(r) } else { gen_mode(r, i, false) } }
+pub fn gen(r: &mut Rng, i: u64) -> String {
+    if i % 1000 == 999 { gen_many_origins(r) } else if i % 1000 == 499 { gen_colliding_origins(r) } else if i % 40 == 39 { gen_shutdown(r) } else { gen_mode(r, i, false) }
+}
+
+/// Pairs of origins `n<k>.example` whose pool keys (`UriKey`) agree in a truncation of their unkeyed std hash - low 32 bits,
+/// high 32 bits, low 16 bits. A key table that remembers a fingerprint instead of the key confuses exactly such origins;
+/// this is a probe for that one family of slips (a keyed or different hash would need its own), found by a birthday search
+/// done once per process.
+fn colliding_pairs() -> &'static Vec<(u64, u64)> {
+    static PAIRS: std::sync::OnceLock<Vec<(u64, u64)>> = std::sync::OnceLock::new();
+    PAIRS.get_or_init(|| {
+        use std::hash::{Hash, Hasher};
+        let mut lo32: HashMap<u32, u64> = HashMap::new();
+        let mut hi32: HashMap<u32, u64> = HashMap::new();
+        let mut lo16: HashMap<u16, u64> = HashMap::new();
+        let mut out = vec![];
+        let (mut f32l, mut f32h, mut f16) = (false, false, false);
+        for k in 1000u64..400_000 {
+            let Ok(key) = format!("http://n{k}.example").parse::<hyperdriver::client::pool::UriKey>() else { continue };
+            let mut h = std::collections::hash_map::DefaultHasher::new();
+            key.hash(&mut h);
+            let v = h.finish();
+            if !f32l { if let Some(o) = lo32.insert(v as u32, k) { out.push((o, k)); f32l = true; } }
+            if !f32h { if let Some(o) = hi32.insert((v >> 32) as u32, k) { out.push((o, k)); f32h = true; } }
+            if !f16 { if let Some(o) = lo16.insert(v as u16, k) { out.push((o, k)); f16 = true; } }
+            if f32l && f32h && f16 { break; }
+        }
+        out
+    })
+}
+
+fn gen_colliding_origins(r: &mut Rng) -> String {
+    let pairs = colliding_pairs();
+    if pairs.is_empty() { return gen_mode(r, 0, false); }
+    let (a, b) = *r.pick(pairs);
+    let (a, b) = if r.chance(1, 2) { (a, b) } else { (b, a) };
+    let mux = r.chance(1, 3) as u8;
+    // origin a leaves a connection behind; origin b is then asked for, twice; then a again
+    let ops = [format!("i 0 {a} {mux}"), "p 0".into(), "d 0 ok0".into(), "p 0".into(), "f 0".into(), "cr 0".into(), "run".into(),
+               format!("i 1 {b} {mux}"), "p 1".into(), "d 1 ok0".into(), "p 1".into(), "f 1".into(), "cr 1".into(), "run".into(),
+               format!("i 2 {b} {mux}"), "p 2".into(), format!("i 3 {a} {mux}"), "p 3".into(), "mark".into(), "mark".into(), "mark".into()];
+    format!("- 32 {} 0 ; {}", r.chance(1, 2) as u8, ops.join(" ; "))
+}
 
 /// The runtime that hosts the pool's background tasks goes away while the client lives on (a client shared between
 /// runtimes): released connections still waiting to become ready, and abandoned attempts carried on in the background.
